@@ -369,10 +369,12 @@ def rule_addr(ctx, rep):
                         walk(x, True)
         walk(t2, False)
         idx_calls = [c for c in b.calls() if (c.callee or "").startswith("<regex::regex::string::Captures") and c.callee.endswith("::index")]
+        ordk = {}
         for c in sorted(idx_calls, key=lambda c: (c.loc[0], c.loc[1])):
             k = panics._int_const(b, c.args[1])
             # which regex does this Captures come from? the second `captures` call is DIRECT_ADDRESS
-            inst = "try_from|cap[%s]@line-order%d" % (k, idx_calls.index(c) + 1)
+            ordk[k] = ordk.get(k, 0) + 1
+            inst = "try_from|cap[%s]#%d" % (k, ordk[k])
             rp = op_place(c.args[0])
             from_direct = False
             cur = rp
